@@ -366,6 +366,31 @@ Proof.
   - apply des_index_preserved. exact W.
 Qed.
 
+(* fit keeps the FIRST period of the decomposition's seasonal series S (periodic, as long as the
+   training series): on the training series itself, transform removes exactly S *)
+Lemma training_component (S : list Q) sp m y i :
+  0 < sp -> (Z.to_nat sp <= length S)%nat ->
+  (forall j, (j < length S)%nat -> nth j S 0%Q = nth (j mod Z.to_nat sp)%nat S 0%Q) ->
+  length S = length (svals y) -> (i < length (svals y))%nat ->
+  let d := {| d_sp := sp; d_model := m; d_t0 := sstart y;
+              d_seasonal := firstn (Z.to_nat sp) S |} in
+  wf d /\
+  nth i (svals (des_transform d y)) 0%Q = op_fwd m (nth i (svals y) 0%Q) (nth i S 0%Q).
+Proof.
+  intros Hsp HS Hper HL Hi d.
+  assert (W : wf d).
+  { split; cbn [d d_sp d_seasonal]; [exact Hsp|]. rewrite firstn_length. lia. }
+  split; [exact W|].
+  rewrite des_transform_nth by assumption. cbn [d d_model d_seasonal d_t0 d_sp].
+  f_equal. unfold comp_at, zn, phase.
+  replace (sstart y + Z.of_nat i - sstart y) with (Z.of_nat i) by lia.
+  assert (Hnz : Z.to_nat sp <> 0%nat) by lia.
+  assert (E : Z.to_nat (Z.of_nat i mod sp) = (i mod Z.to_nat sp)%nat).
+  { rewrite <- (Z2Nat.id sp) at 1 by lia. rewrite <- Nat2Z.inj_mod. apply Nat2Z.id. }
+  rewrite E. rewrite nth_firstn_c13 by (apply Nat.mod_upper_bound; exact Hnz).
+  symmetry. apply Hper. lia.
+Qed.
+
 (* ---- ConditionalDeseasonalizer ----------------------------------------------------------------- *)
 Lemma cond_fit_wf test decompose sp m y : 0 < sp ->
   Z.of_nat (length (decompose m sp (svals y))) = sp -> wf (cond_fit test decompose sp m y).
